@@ -18,6 +18,9 @@ use std::time::{Duration, Instant};
 
 pub const VERIF_ROOT: &str = "/verif";
 
+/// set once at start-up: checks that scale their per-case work with the tier read it
+pub static THOROUGH: AtomicBool = AtomicBool::new(false);
+
 #[derive(Copy, Clone, Debug, PartialEq, Eq)]
 pub enum Tier {
     Quick,
@@ -304,6 +307,7 @@ fn shrink<P: Prop>(
 
 pub fn run<P: Prop + 'static>(p: Arc<P>, cfg: Config) -> i32 {
     let start = Instant::now();
+    THOROUGH.store(cfg.tier == Tier::Thorough, Ordering::Relaxed);
     crate::run::install_panic_hook();
     let id = p.id();
 
